@@ -5,16 +5,25 @@ import argparse, json, os, subprocess, sys, time
 V = "/verif"
 def sh(*a, **k):
     return subprocess.run(a, capture_output=True, text=True, **k)
+WT = None
 def clean():
-    sh("git", "-C", "/repo", "checkout", "--", ".")
+    sh("git", "-C", WT or "/repo", "checkout", "--", ".")
 def main():
     ap = argparse.ArgumentParser()
     ap.add_argument("--budget", default="18")
     ap.add_argument("--only", default="")
     ap.add_argument("--seeded", action="store_true")
     ap.add_argument("--allprops", action="store_true")
+    ap.add_argument("--worktree", action="store_true", help="apply patches in a scratch worktree of /repo (PSS_REPO/PYTHONPATH) instead of /repo itself")
     a = ap.parse_args()
-    if sh("git", "-C", "/repo", "status", "--porcelain", "--untracked-files=no").stdout.strip():
+    global WT
+    env_extra = {}
+    if a.worktree:
+        WT = f"/tmp/wt_mut_{os.getpid()}"
+        r = sh("git", "-C", "/repo", "worktree", "add", "-q", "--detach", WT, "HEAD")
+        assert r.returncode == 0, r.stderr
+        env_extra = {"PSS_REPO": WT, "PYTHONPATH": WT}
+    elif sh("git", "-C", "/repo", "status", "--porcelain", "--untracked-files=no").stdout.strip():
         print("refusing: /repo has uncommitted changes"); sys.exit(2)
     items = []
     if a.seeded:
@@ -31,14 +40,14 @@ def main():
         if only and it["name"] not in only:
             continue
         props = ["C09", "C15", "C17", "C18"] if (it["kind"] == "silent" or a.allprops) else it["expect"].split(",")
-        r = sh("git", "-C", "/repo", "apply", it["patch"])
+        r = sh("git", "-C", WT or "/repo", "apply", it["patch"])
         if r.returncode:
             print(it["name"], "PATCH DOES NOT APPLY", r.stderr[:200]); continue
         res = {}
         try:
             for p in props:
                 t = time.time()
-                out = sh("/venv/bin/python", f"{V}/run.py", "check", p, env={**os.environ, "VERIF_BUDGET_S": a.budget, "PSS_NO_EVIDENCE": "1"})
+                out = sh("/venv/bin/python", f"{V}/run.py", "check", p, env={**os.environ, "VERIF_BUDGET_S": a.budget, "PSS_NO_EVIDENCE": "1", "PSS_REPLAY_DIR": f"/tmp/pss_replays_{os.getpid()}", **env_extra})
                 res[p] = out.returncode
                 first = next((l for l in out.stdout.splitlines() if l.startswith("  seed=")), "")
                 print(f"{it['name']:45s} {p} rc={out.returncode} {time.time()-t:5.1f}s {first[:150]}", flush=True)
@@ -46,9 +55,11 @@ def main():
                     print("   " + "\n   ".join([l for l in out.stdout.splitlines() if "HARNESS" in l][:2])[:600])
         finally:
             clean()
-            sh("bash", "-c", f"rm -rf {V}/replays/C09 {V}/replays/C15 {V}/replays/C17 {V}/replays/C18")
+            sh("bash", "-c", f"rm -rf /tmp/pss_replays_{os.getpid()}")
         ok = (any(v == 1 for v in res.values()) and 2 not in res.values()) if it["kind"] == "break" else all(v == 0 for v in res.values())
         rows.append((it["name"], it["kind"], res, ok))
+    if a.worktree:
+        sh("git", "-C", "/repo", "worktree", "remove", "--force", WT)
     print("\nSUMMARY")
     for n, k, res, ok in rows:
         print(f"{'ok  ' if ok else 'MISS'} {k:6s} {n:45s} {res}")
